@@ -19,6 +19,9 @@ use bitvec::{
 };
 use ethnum::{I256, U256};
 
+/// The number of bits in a [`KnownWord`].
+const WORD_BITS: u32 = 256;
+
 /// The type of data whose value is concretely known during symbolic execution.
 ///
 /// # Representation
@@ -223,8 +226,20 @@ impl KnownWord {
     /// Performs exponentiation of two known words.
     #[must_use]
     pub fn exp(self, rhs: Self) -> Self {
-        // The operation takes place in native endianness, which in our case is LE
-        KnownWord::from_le(self.value.wrapping_pow(rhs.value.as_u32()))
+        // The operation takes place in native endianness, which in our case is LE. We
+        // perform exponentiation by squaring over the full 256-bit exponent, as
+        // truncating the exponent would give the wrong result for large exponents.
+        let mut base = self.value;
+        let mut exponent = rhs.value;
+        let mut result = U256::ONE;
+        while exponent != U256::ZERO {
+            if exponent & U256::ONE == U256::ONE {
+                result = result.wrapping_mul(base);
+            }
+            base = base.wrapping_mul(base);
+            exponent >>= 1u32;
+        }
+        KnownWord::from_le(result)
     }
 
     /// Computes less-than of two known words.
@@ -286,8 +301,18 @@ impl KnownWord {
     /// Computes the signed right shift of `self` by `rhs`.
     #[must_use]
     pub fn sar(self, rhs: Self) -> Self {
-        // We need the value to be signed to make it an arithmetic shift
-        let result = self.value_le_signed() >> rhs.value_le();
+        // We need the value to be signed to make it an arithmetic shift. Shifting by
+        // the word size or more leaves only copies of the sign bit.
+        let value = self.value_le_signed();
+        let result = if rhs.value_le() >= U256::from(WORD_BITS) {
+            if value < I256::ZERO {
+                I256::MINUS_ONE
+            } else {
+                I256::ZERO
+            }
+        } else {
+            value >> rhs.value_le().as_u32()
+        };
 
         // We are already LE, but need to turn it back into the unsigned internal rep
         KnownWord::from_le_signed(result)
@@ -402,7 +427,12 @@ impl std::ops::Shl<KnownWord> for KnownWord {
 
     /// Computes the left shift of `self` by `rhs`.
     fn shl(self, rhs: KnownWord) -> Self::Output {
-        KnownWord::from_le(self.value_le() << rhs.value_le())
+        // Shifting by the word size or more shifts out every bit
+        if rhs.value_le() >= U256::from(WORD_BITS) {
+            KnownWord::zero()
+        } else {
+            KnownWord::from_le(self.value_le() << rhs.value_le().as_u32())
+        }
     }
 }
 
@@ -411,7 +441,12 @@ impl std::ops::Shr<KnownWord> for KnownWord {
 
     /// Computes the unsigned right shift of `self` by `rhs`.
     fn shr(self, rhs: KnownWord) -> Self::Output {
-        KnownWord::from_le(self.value_le() >> rhs.value_le())
+        // Shifting by the word size or more shifts out every bit
+        if rhs.value_le() >= U256::from(WORD_BITS) {
+            KnownWord::zero()
+        } else {
+            KnownWord::from_le(self.value_le() >> rhs.value_le().as_u32())
+        }
     }
 }
 
